@@ -194,3 +194,76 @@ Proof.
   rewrite (u_gt u HU f g Hf Hg), (u_eq u HU f g Hf Hg). repeat split.
   intros (vs & ws & ->) (vs' & ws' & ->). reflexivity.
 Qed.
+
+(* ---------- a universe that may also contain invalid fitness values (failed evaluations) ---------- *)
+(* one class; the valid values pairwise identical or separated.  C09: an invalid fitness is never
+   better than anything, every valid fitness is better than an invalid one. *)
+Definition SepV (u : list fit) : Prop :=
+  forall f g, In f u -> In g u ->
+    same_class f g = true /\ (valid f = true -> valid g = true -> sep_b (vals f) (vals g) = true).
+
+Lemma SepU_SepV u : SepU u -> SepV u.
+Proof. intros H f g Hf Hg. destruct (H f g Hf Hg) as (C & _ & _ & S). split; [exact C|intros _ _; exact S]. Qed.
+
+Definition fbot (f : fit) : bool := negb (valid f).
+
+Lemma better_invalid_l f g : valid f = false -> f_better f g = false.
+Proof. intros H. unfold f_better. rewrite (invalid_never_better f g H). reflexivity. Qed.
+
+Lemma better_valid_invalid f g : valid f = true -> valid g = false -> f_better f g = true.
+Proof. intros Hf Hg. unfold f_better. rewrite (valid_beats_invalid f g Hf Hg). reflexivity. Qed.
+
+Section OnUniverseV.
+  Variable u : list fit.
+  Hypothesis HV : SepV u.
+  Notation inU := (inU u).
+
+  Lemma v_better_valid f g : inU f -> inU g -> valid f = true -> valid g = true ->
+    f_better f g = lex_lt_b (vals f) (vals g).
+  Proof.
+    intros Hf Hg Vf Vg. destruct (HV f g Hf Hg) as (C & S). unfold f_better.
+    rewrite (sep_gt f g C Vf Vg (S Vf Vg)). reflexivity.
+  Qed.
+
+  Lemma v_length f g : inU f -> inU g -> valid f = true -> valid g = true -> length (vals f) = length (vals g).
+  Proof. intros Hf Hg Vf Vg. destruct (HV f g Hf Hg) as (_ & S). apply sep_length, S; assumption. Qed.
+
+  Lemma v_worse f g : inU f -> inU g ->
+    if fbot f then f_worse f g = true /\ f_better f g = false else f_worse f g = f_better g f.
+  Proof.
+    intros Hf Hg. unfold fbot, f_worse, lt. destruct (valid f) eqn:Vf; simpl.
+    - destruct (valid g) eqn:Vg; simpl.
+      + rewrite (v_better_valid g f Hg Hf Vg Vf). apply tuple_gt_lex. apply v_length; assumption.
+      + symmetry. apply better_invalid_l, Vg.
+    - split; [reflexivity|apply better_invalid_l, Vf].
+  Qed.
+
+  Lemma v_better_irrefl f : inU f -> f_better f f = false.
+  Proof. intros _. unfold f_better. rewrite gt_irrefl. reflexivity. Qed.
+
+  Lemma v_better_trans f g h : inU f -> inU g -> inU h ->
+    f_better f g = true -> f_better g h = true -> f_better f h = true.
+  Proof.
+    intros Hf Hg Hh H1 H2.
+    destruct (valid f) eqn:Vf; [|rewrite (better_invalid_l f g Vf) in H1; discriminate].
+    destruct (valid g) eqn:Vg; [|rewrite (better_invalid_l g h Vg) in H2; discriminate].
+    destruct (valid h) eqn:Vh; [|apply better_valid_invalid; assumption].
+    rewrite v_better_valid in * by assumption. eapply lex_trans; eassumption.
+  Qed.
+
+  Lemma v_better_negtrans f g h : inU f -> inU g -> inU h ->
+    f_better f g = false -> f_better g h = false -> f_better f h = false.
+  Proof.
+    intros Hf Hg Hh H1 H2.
+    destruct (valid f) eqn:Vf; [|apply better_invalid_l, Vf].
+    destruct (valid g) eqn:Vg; [|rewrite (better_valid_invalid f g Vf Vg) in H1; discriminate].
+    destruct (valid h) eqn:Vh; [|rewrite (better_valid_invalid g h Vg Vh) in H2; discriminate].
+    rewrite v_better_valid in * by assumption.
+    apply (lex_negtrans _ (vals g)); try assumption; apply v_length; assumption.
+  Qed.
+End OnUniverseV.
+
+(* the all-valid universe as a special case (no bottom element) *)
+Lemma u_worse_nobot u (HU : SepU u) f g : inU u f -> inU u g ->
+  if (fun _ : fit => false) f then f_worse f g = true /\ f_better f g = false else f_worse f g = f_better g f.
+Proof. intros Hf Hg. simpl. apply (u_worse u HU); assumption. Qed.
